@@ -512,10 +512,10 @@ def mixed_object(mods, kind, t):
         return PairObj(m.deser_legacy(b), m.deser_legacy(b)), (t, t)
     if kind == "mixed_siblings":
         # a LazyNode next to a CLVMTree, a Program and a fresh-children storage of similar trees
-        t1, t2, t3 = vary(t, 1), vary(t, 2), vary(t, 3)
+        t1, t2, t3, t4 = vary(t, 1), vary(t, 2), vary(t, 3), vary(t, 4)
         obj = PairObj(PairObj(m.deser_legacy(classic_of(Program, t)), CLVMTree.from_bytes(classic_of(Program, t1))),
-                      PairObj(Program.wrap(m.deser_legacy(classic_of(Program, t2))), PairObj(FreshStorage(t3), m.deser_backrefs(classic_of(Program, t)))))
-        return obj, ((t, t1), (t2, (t3, t)))
+                      PairObj(Program.wrap(m.deser_legacy(classic_of(Program, t2))), PairObj(FreshStorage(t3), m.deser_backrefs(classic_of(Program, t4)))))
+        return obj, ((t, t1), (t2, (t3, t4)))
     raise ValueError(kind)
 
 
